@@ -102,6 +102,27 @@ def main(tier):
                     outside += [v.upper(), v.title(), v.swapcase(), " " + v, v + " "]
             outside = [o for o in dict.fromkeys(outside) if o not in allv]
         root_t = {"kind": "reference", "name": sname}
+        # LONG arrays: 70 declared values around one out-of-set / custom value (bulk fast paths)
+        if steps and steps[-1] == ("elem",) and (outside or custom):
+            for val, cat in [(outside[0], "outside")] if outside else [(custom[0], "custom")]:
+                g = TGen(mm, rng_for(common.seed(), "C13-long", sname, steps), maxdepth=2, p_opt=0.0)
+                elems = [("enum", ename, [v["value"] for v in e["values"]][x % len(e["values"])]) for x in range(70)]
+                elems.insert(35, ("enum", ename, val))
+                tree = g.gen(root_t, 0, list(steps[:-1]) + [("tree", ("arr", elems))])
+                j = to_json(tree)
+                nB += 1
+                site = "%s%s[x71]" % (sname, "".join("." + s_[1] if s_[0] == "prop" else "" for s_ in steps))
+                if cat == "outside":
+                    if not mm.valid(j, root_t):
+                        try:
+                            py.conv.structure(j, cls)
+                            rep.fail("closed enumeration accepts non-member|%s|in a long array|at=%s" % (ename, site), {"structure": sname, "value": val, "array_length": 71})
+                        except Exception:
+                            pass
+                else:
+                    out = py.roundtrip(j, cls)
+                    if out[0] != "ok" or mm.diff(j, out[1], root_t):
+                        rep.fail("custom value in a long array does not round-trip|%s|at=%s" % (ename, site), {"structure": sname, "value": val, "error": out[1] if out[0] != "ok" else "differs"})
         for val, cat in [(v, "declared") for v in declared] + [(v, "custom") for v in custom] + [(v, "outside") for v in outside]:
             g = TGen(mm, rng_for(common.seed(), "C13", sname, steps, repr(val)), maxdepth=2, p_opt=0.0)
             tree = g.gen(root_t, 0, list(steps) + [("tree", ("enum", ename, val))])
